@@ -52,6 +52,7 @@ import (
 	"github.com/AdguardTeam/golibs/netutil"
 	"github.com/AdguardTeam/golibs/timeutil"
 	"github.com/NYTimes/gziphandler"
+	"github.com/josharian/native"
 	"golang.org/x/crypto/bcrypt"
 )
 
@@ -75,6 +76,8 @@ type c11State struct {
 	mu       sync.Mutex   // serialises the request in flight (client side and server goroutine)
 	wireAddr string       // address of the real HTTP server
 	wireObs  chan *c11Obs // serving-side observation of the request in flight
+
+	glIssued map[string]string // router tokens planted by name -> "short" | "date:<n>"
 }
 
 type c11Fact struct {
@@ -305,6 +308,7 @@ func c11SetSessions() {
 
 // c11SetGlobals sets the two global flags the wrappers read.
 func c11SetGlobals(firstRun, usersExist bool) {
+	GLMode = false
 	globalContext.firstRun = firstRun
 	a := globalContext.auth
 	a.lock.Lock()
@@ -369,6 +373,10 @@ var c11HdrTokens = []string{
 	"ckother", "ck2valid", "ck2unknown", "cksplit", "gzip", "host", "referer", "secfetch",
 }
 
+// c11GLRaw, when not nil, is the raw value of an Admin-Token cookie that
+// c11Decorate puts in front of the other cookies (gl-inet cases only).
+var c11GLRaw *string
+
 // c11Decorate sets the credentials, the content type and the further headers
 // (hdrs: "-" or a comma-separated list of c11HdrTokens) of a request.
 func c11Decorate(r *http.Request, cookie, basic, ctype, hdrs string) {
@@ -382,6 +390,9 @@ func c11Decorate(r *http.Request, cookie, basic, ctype, hdrs string) {
 	// Cookies: the first agh_session value is the one that counts
 	// (http.Request.Cookie); other names and later values must not matter.
 	var cookies []string
+	if c11GLRaw != nil {
+		cookies = append(cookies, glCookieName+"="+*c11GLRaw)
+	}
 	if tok["ckother"] {
 		cookies = append(cookies, "session="+c11ValidTok, "agh_sessionx="+c11ValidTok, "AGH_SESSION="+c11ValidTok)
 	}
@@ -506,6 +517,9 @@ func c11Classify(method string, code int, hdr http.Header, body string, panicked
 			return "redirInstall"
 		case loc == "/":
 			return "redirDash"
+		case strings.HasPrefix(loc, "http://") && GLMode:
+			// glProcessRedirect: the router's own login page
+			return "redirGL"
 		}
 	}
 
@@ -667,6 +681,99 @@ func c11Opt(f []string, i int) string {
 	return "-"
 }
 
+// c11GLSetup plants the router's token directory: base/tok holds the tokens
+// (glFilePrefix = base/tok/gl_token_), next to them and one level up lie files
+// that are not tokens but whose first four bytes read as a fresh date.
+func c11GLSetup(t *testing.T, base string) {
+	tok := filepath.Join(base, "tok")
+	if err := os.MkdirAll(filepath.Join(tok, "sub"), 0o755); err != nil {
+		t.Fatal(err)
+	}
+	glFilePrefix = filepath.Join(tok, "gl_token_")
+	now := uint32(time.Now().UTC().Unix())
+	date := func(d uint32) []byte {
+		b := make([]byte, 4)
+		native.Endian.PutUint32(b, d)
+
+		return b
+	}
+	c11.glIssued = map[string]string{}
+	plant := func(name string, data []byte) {
+		if err := os.WriteFile(glFilePrefix+name, data, 0o600); err != nil {
+			t.Fatal(err)
+		}
+		if len(data) < 4 {
+			c11.glIssued[name] = "short"
+		} else {
+			c11.glIssued[name] = "date:" + vutil.Itoa(int(native.Endian.Uint32(data)))
+		}
+	}
+	plant("fresh", date(now))
+	plant("future", date(now+86400*365))
+	plant("long8", append(date(now), 1, 2, 3, 4))
+	plant("old", date(now-2*glTokenTimeoutSeconds))
+	plant("justold", date(now-glTokenTimeoutSeconds-600))
+	plant("zero", date(0))
+	plant("wrap", date(0xffffffff))
+	plant("short", []byte{1, 2, 3})
+	plant("empty", nil)
+	plant("A-b_9.tok", date(now))
+
+	// Not tokens.
+	other := func(p string, data []byte) {
+		if err := os.WriteFile(p, data, 0o644); err != nil {
+			t.Fatal(err)
+		}
+	}
+	other(filepath.Join(tok, "passwd"), []byte("root:x:0:0:root:/root:/bin/ash\n"))
+	other(filepath.Join(tok, "secret"), date(now))
+	other(filepath.Join(tok, "sub", "inner"), date(now))
+	other(filepath.Join(base, "outside"), date(now))
+	// A directory whose name starts with the token prefix (anybody who can
+	// write to the token directory, /tmp on the router, can make one): through
+	// it a value like dir/../secret reaches the other files.  Before 40971e7
+	// such a value authenticated.
+	if err := os.MkdirAll(glFilePrefix+"dir", 0o755); err != nil {
+		t.Fatal(err)
+	}
+	other(filepath.Join(glFilePrefix+"dir", "inner"), date(now))
+}
+
+// c11GLStat is the harness's own look at the path glFilePrefix + value, the
+// path the code is meant to ask the OS for.
+func c11GLStat(value string) string {
+	p := glFilePrefix + value
+	if _, err := os.Stat(p); err != nil {
+		return "missing"
+	}
+	data, err := os.ReadFile(p)
+	if err != nil || len(data) < 4 {
+		return "short"
+	}
+
+	return "date:" + vutil.Itoa(int(native.Endian.Uint32(data)))
+}
+
+// c11GLIssued is the token the router issued under exactly this name.
+func c11GLIssued(value string) string {
+	if v, ok := c11.glIssued[value]; ok {
+		return v
+	}
+
+	return "missing"
+}
+
+// c11GLValues are Admin-Token values: names of issued tokens and hostile ones.
+var c11GLValues = []string{
+	"fresh", "future", "long8", "A-b_9.tok", "old", "justold", "zero", "wrap", "short", "empty",
+	"missing", "", "FRESH", "fresh/", "fresh/.", "./fresh", "fresh/../fresh", "%66resh", "fresh%00",
+	"x/../gl_token_fresh", "x/../passwd", "x/../secret", "x/../sub/inner", "x/../../outside",
+	"x/../../tok/gl_token_fresh", "/../passwd", "/../gl_token_fresh", "../tok/passwd", "..", ".",
+	"fresh/../passwd", "old/../gl_token_fresh", "missing/../secret", "sub/inner",
+	"dir", "dir/inner", "dir/../passwd", "dir/../secret", "dir/../gl_token_fresh", "dir/../../outside",
+	"dir/../gl_token_old", "x\\..\\passwd", "fresh fresh", "fresh,old",
+}
+
 // c11Run executes one line on the implementation.
 func c11Run(f []string) []string {
 	switch f[0] {
@@ -685,6 +792,49 @@ func c11Run(f []string) []string {
 		o := c11Observe(rec, r)
 
 		return o.fields(method, rec.Code, rec.Header(), rec.Body.String())
+	case "C11.gl":
+		firstRun, usersExist := vutil.UnB(f[1]), vutil.UnB(f[2])
+		method, target := vutil.Unhex(f[3]), vutil.Unhex(f[4])
+		cookie, basic, ctype, lenSpec, hdrs := f[5], f[6], vutil.Unhex(f[7]), f[8], f[9]
+		glRaw, host := f[10], vutil.Unhex(f[11])
+
+		c11.mu.Lock()
+		defer c11.mu.Unlock()
+		c11SetGlobals(firstRun, usersExist)
+		GLMode = true
+		defer func() { GLMode = false }()
+
+		r := c11NewRequest(method, target, lenSpec)
+		if glRaw != "none" {
+			v := vutil.Unhex(glRaw)
+			c11GLRaw = &v
+		}
+		c11Decorate(r, cookie, basic, ctype, hdrs)
+		c11GLRaw = nil
+		r.Host = host
+
+		// What net/http makes of the cookie, what the OS has under the path the
+		// code is meant to build, and what the router issued under that name.
+		seen, stat, issued := "none", "missing", "missing"
+		if ck, err := r.Cookie(glCookieName); err == nil {
+			seen, stat, issued = vutil.Hex(ck.Value), c11GLStat(ck.Value), c11GLIssued(ck.Value)
+		}
+		now := uint32(time.Now().UTC().Unix())
+
+		rec := httptest.NewRecorder()
+		o := c11Observe(rec, r)
+
+		return append(o.fields(method, rec.Code, rec.Header(), rec.Body.String()),
+			seen, stat, issued, vutil.Itoa(int(now)))
+	case "C11.gltok":
+		value := vutil.Unhex(f[1])
+
+		c11.mu.Lock()
+		defer c11.mu.Unlock()
+		now := uint32(time.Now().UTC().Unix())
+		res := glCheckToken(value)
+
+		return []string{c11GLStat(value), c11GLIssued(value), vutil.Itoa(int(now)), vutil.B(res)}
 	case "C11.wire":
 		firstRun, usersExist := vutil.UnB(f[1]), vutil.UnB(f[2])
 		method, target := vutil.Unhex(f[3]), vutil.Unhex(f[4])
@@ -1003,8 +1153,68 @@ func c11Gen(r *rand.Rand, emit vutil.Emit) {
 		emit("C11.wire", "0", "1", vutil.Hex(declared[p]), vutil.Hex(p), "none", "right", "-", "u0")
 	}
 
+	// gl-inet mode: every route x the token matrix without any other credential
+	// (issued and fresh / expired / short / missing, no cookie, and values that
+	// point at other existing files), then glCheckToken on raw byte strings.
+	glHosts := []string{"router.lan:80", "router.lan", "192.168.8.1:3000", "[::1]:8080", ""}
+	for _, p := range pats {
+		m := declared[p]
+		if m == "" {
+			m = http.MethodGet
+		}
+		for _, v := range []string{
+			"fresh", "old", "short", "missing", "x/../passwd", "x/../../outside", "dir/../secret", "dir/inner", "",
+		} {
+			emit("C11.gl", "0", "0", vutil.Hex(m), vutil.Hex(p), "none", "none", "-", "0", "-", vutil.Hex(v), vutil.Hex("router.lan:80"))
+		}
+		emit("C11.gl", "0", "0", vutil.Hex(m), vutil.Hex(p), "none", "none", "-", "0", "-", "none", vutil.Hex("router.lan:80"))
+		emit("C11.gl", "1", "0", vutil.Hex(m), vutil.Hex(p), "none", "none", "-", "0", "-", vutil.Hex("fresh"), vutil.Hex("router.lan"))
+	}
+	for _, v := range c11GLValues {
+		emit("C11.gltok", vutil.Hex(v))
+	}
+	for _, v := range []string{"fresh\x00", "\x00", "fresh\x00/../passwd", strings.Repeat("a", 300), strings.Repeat("a", 5000), "x/" + strings.Repeat("../", 40) + "etc/passwd", "../../../../../../../../etc/passwd", "x/../../../../../../../../etc/passwd"} {
+		emit("C11.gltok", vutil.Hex(v))
+	}
+
 	for i := 0; i < n; i++ {
 		switch {
+		case i%8 == 5:
+			p := vutil.Pick(r, pats)
+			var tgt string
+			switch r.IntN(8) {
+			case 0:
+				tgt = vutil.Pick(r, c11Fixed)
+			case 1:
+				tgt = c11Spell(r, p)
+			default:
+				tgt = p
+			}
+			method := vutil.Pick(r, c11Methods)
+			if declared[p] != "" && r.IntN(4) > 0 {
+				method = declared[p]
+			}
+			if !c11ValidTarget(method, tgt) {
+				continue
+			}
+			ctype, bodyLen := "", 0
+			if r.IntN(3) == 0 {
+				ctype, bodyLen = "application/json", 2
+			}
+			cookie, basic := "none", "none"
+			if r.IntN(5) == 0 {
+				cookie, basic = vutil.Pick(r, c11Cookies), vutil.Pick(r, c11Basics)
+			}
+			glRaw := "none"
+			if r.IntN(8) > 0 {
+				glRaw = vutil.Hex(vutil.Pick(r, c11GLValues))
+			}
+			// Basic credentials can only be "right" when the user exists.
+			usersExist := r.IntN(2) == 0 || basic == "right"
+			emit("C11.gl", vutil.B(r.IntN(15) == 0), vutil.B(usersExist), vutil.Hex(method), vutil.Hex(tgt),
+				cookie, basic, vutil.Hex(ctype), vutil.Itoa(bodyLen), c11GenHdrs(r), glRaw, vutil.Hex(vutil.Pick(r, glHosts)))
+
+			continue
 		case i%20 == 19:
 			p := vutil.Pick(r, changing)
 			if r.IntN(3) == 0 {
@@ -1128,5 +1338,11 @@ func TestVerifC11(t *testing.T) {
 	}
 	c11 = c11Build(t)
 	c11StartServer(t)
+	glBase, err := os.MkdirTemp("", "verif-c11-gl-")
+	if err != nil {
+		t.Fatal(err)
+	}
+	t.Cleanup(func() { _ = os.RemoveAll(glBase) })
+	c11GLSetup(t, glBase)
 	vutil.Main(t, c11Gen, c11Run)
 }
